@@ -175,6 +175,41 @@ Proof.
   split; [exact (registry_unknown_kty O d ps) | exact (registry_known_kty O d ps)].
 Qed.
 
+(* ---- the dict is validated as given AND after it was completed with the
+   parameters ({**d, **parameters, "kty": key_type}): a JWK that is only
+   invalid in combination with the parameters is refused *)
+Theorem c11_import_validates_merged_dict : forall O kt d ps,
+  (forall k, import_key O kt d ps = Ok k ->
+     validate_dict_key kt d = Ok tt /\ validate_dict_key kt (init_data kt d ps) = Ok tt) /\
+  (validate_dict_key kt (init_data kt d ps) <> Ok tt -> forall k, import_key O kt d ps <> Ok k) /\
+  (validate_dict_key kt d <> Ok tt -> forall k, import_key O kt d ps <> Ok k).
+Proof. exact import_validates_merged. Qed.
+
+Example c11_merged_instance :
+  (exists k, import_key O_yes KOct (ex_oct [(K "use", PStr (asc "sig"))]) [(K "key_ops", PList [PStr (asc "sign")])] = Ok k) /\
+  import_key O_yes KOct (ex_oct [(K "use", PStr (asc "sig"))]) [(K "key_ops", PList [PStr (asc "decrypt")])] = Err EValue /\
+  import_key O_yes KOct (ex_oct []) [(K "kid", PInt 0)] = Err EValue /\
+  (exists k, import_key O_yes KOct (ex_oct [(K "kid", PStr []); (K "key_ops", PList []); (K "x5c", PList [])]) [] = Ok k) /\
+  import_key O_yes KOct (ex_oct [(K "kid", PList [])]) [] = Err EValue.
+Proof. exact merged_instance. Qed.
+
+(* ---- export views: as_dict is a function of the key's own dict and of the
+   private flags of ITS OWN key type (table: oct k; RSA d p q dp dq qi oth;
+   EC d; OKP d); the public view drops exactly those members *)
+Theorem c11_export_stateless : forall (k : key) ps,
+  as_dict k None ps = Ok (dupdate (k_dict k) ps) /\
+  (is_private (k_native k) = true -> as_dict k (Some true) ps = Ok (dupdate (k_dict k) ps)) /\
+  (is_private (k_native k) = false -> as_dict k (Some true) ps = Err EValue) /\
+  (exists pub, as_dict k (Some false) [] = Ok pub /\
+     forall m, dget pub m = if str_mem m (map asc (private_names (k_type k))) then None else dget (k_dict k) m).
+Proof. exact export_views. Qed.
+
+Theorem c11_private_names :
+  private_names KOct = ["k"]%string /\
+  private_names KRSA = ["d"; "p"; "q"; "dp"; "dq"; "qi"; "oth"]%string /\
+  private_names KEC = ["d"]%string /\ private_names KOKP = ["d"]%string.
+Proof. exact private_names_ok. Qed.
+
 (* ---- what every accepted JWK satisfies (Spec written independently of the
    validators: [dict_key_spec], [import_spec] in proofs/C11Proofs.v):
    required members present, registered members well-typed ([kind_spec]),
@@ -301,6 +336,9 @@ Print Assumptions c11_unpadded.
 Print Assumptions c11_jwk_id.
 Print Assumptions c11_jwk_id_exact.
 Print Assumptions c11_registry_dispatch.
+Print Assumptions c11_import_validates_merged_dict.
+Print Assumptions c11_export_stateless.
+Print Assumptions c11_private_names.
 Print Assumptions c11_reject.
 Print Assumptions c11_import_iff.
 Print Assumptions c11_validate_iff.
